@@ -151,20 +151,22 @@ Proof.
     assert (P : wake_inv c (proceed c s t k)).
     { apply (proceed_wake c s t k (length (woken s)) Hc); [exact W|zlia]. }
     destruct (take_idle k (idle s)); [injection H as <-; intro Hc'; apply P; exact Hc'|].
-    destruct (connect_must_wait (avail c s k)) eqn:Ew; injection H as <-; [|intro Hc'; apply P; exact Hc'].
-    intros _ _. cbn [with_pc with_waiters acquired woken].
+    destruct (connect_must_wait (avail c s k)) eqn:Ew; [|injection H as <-; intro Hc'; apply P; exact Hc'].
     apply must_wait_true in Ew. unfold avail in Ew. rewrite Hl in Ew.
-    apply avail_total_only_nonpos in Ew; [zlia|exact HL].
+    apply avail_total_only_nonpos in Ew; [|exact HL].
+    destruct (refuse_wait s); injection H as <-; intros _ _; cbn [with_pc with_waiters acquired woken]; zlia.
   - (* EResume *)
     destruct (get_pc (pcs s) t) as [| k f | | | | |] eqn:Ep; try discriminate. destruct f; try discriminate.
     + set (s1 := with_woken s (filter (fun x => negb (x =? t)) (woken s))) in *.
       pose proof (woken_remove_length t (woken s) (proj2 (proj2 (proj2 C)))) as Hlen.
-      destruct (wait_slot_found (avail c s1 k)) eqn:Ef; injection H as <-.
-      * intro Hc'. apply (proceed_wake c s1 t k (length (woken s))); [exact Hc| |exact Hlen|exact Hc'].
+      destruct (wait_slot_found (avail c s1 k)) eqn:Ef.
+      * injection H as <-.
+        intro Hc'. apply (proceed_wake c s1 t k (length (woken s))); [exact Hc| |exact Hlen|exact Hc'].
         intros (t' & k' & X). apply W. exists t', k'. exact X.
-      * intros _ _. cbn [with_pc with_waiters with_woken acquired woken].
-        apply slot_found_false in Ef. unfold avail in Ef. rewrite Hl in Ef. cbn [s1 with_woken acquired hostacq] in Ef.
-        apply avail_total_only_nonpos in Ef; [zlia|exact HL].
+      * apply slot_found_false in Ef. unfold avail in Ef. rewrite Hl in Ef. cbn [s1 with_woken acquired hostacq] in Ef.
+        apply avail_total_only_nonpos in Ef; [|exact HL].
+        destruct (refuse_wait s1); injection H as <-; intros _ _;
+          cbn [with_pc with_waiters with_woken acquired woken]; zlia.
     + injection H as <-. intros _ (t' & k' & X). cbn [with_pc with_waiters acquired woken waiters] in *.
       apply filter_In in X as [X _]. apply W. exists t', k'. exact X.
     + set (s1 := with_woken s (filter (fun x => negb (x =? t)) (woken s))) in *.
